@@ -160,3 +160,122 @@ class Budget:
         finally:
             self.max_seen = max(self.max_seen, self.n)
             self.limit = None
+
+
+# --------------------------------------------------------------------------------------------------
+# failpoints: an interruption injected at a chosen line of the library's own code
+
+FP_TOOL = 3
+
+
+class Interrupted(BaseException):
+    """What the failpoint raises inside the library: like KeyboardInterrupt it does not derive from Exception, so no `except Exception`
+    of the library swallows it -- the call under way is abandoned where it stands, as when the user presses Ctrl-C or memory runs out."""
+
+
+def library_codes():
+    """Every code object defined in the modules of the installed decaylanguage package that is loaded (functions, methods, nested functions)."""
+    out, seen = [], set()
+
+    def add(code):
+        stack = [code]
+        while stack:
+            c = stack.pop()
+            if id(c) in seen:
+                continue
+            seen.add(id(c))
+            out.append(c)
+            stack += [k for k in c.co_consts if isinstance(k, types.CodeType)]
+
+    def from_obj(obj, modname, depth=0):
+        if isinstance(obj, (classmethod, staticmethod)):
+            obj = obj.__func__
+        if isinstance(obj, property):
+            for f in (obj.fget, obj.fset):
+                if f is not None:
+                    from_obj(f, modname, depth)
+            return
+        f = getattr(obj, "__func__", obj)
+        k = 0
+        while hasattr(f, "__wrapped__") and k < 5:
+            f, k = f.__wrapped__, k + 1
+        code = getattr(f, "__code__", None)
+        if isinstance(code, types.CodeType):
+            if "decaylanguage" in (code.co_filename or ""):
+                add(code)
+            return
+        if isinstance(obj, type) and getattr(obj, "__module__", "") == modname and depth < 3:
+            for v in list(vars(obj).values()):
+                from_obj(v, modname, depth + 1)
+
+    for name, mod in list(sys.modules.items()):
+        if mod is None or not (name == "decaylanguage" or name.startswith("decaylanguage.")):
+            continue
+        for v in list(vars(mod).values()):
+            from_obj(v, name)
+    return out
+
+
+class Failpoint:
+    """Counts the LINE events of the library's code during a call; `inject(k, fn)` raises `Interrupted` inside the library at the k-th of them."""
+
+    _inst = None
+
+    def __init__(self):
+        self.n = 0
+        self.at = None
+        self.armed = False
+        self.where = None
+        try:
+            mon.use_tool_id(FP_TOOL, "vmon-failpoint")
+        except ValueError:
+            pass
+
+        def on_line(code, line):
+            if self.armed:
+                self.n += 1
+                if self.at is not None and self.n >= self.at:
+                    self.armed = False
+                    self.where = f"{code.co_qualname}:{line}"
+                    raise Interrupted(self.where)
+
+        mon.register_callback(FP_TOOL, mon.events.LINE, on_line)
+        self.codes = []
+
+    @classmethod
+    def get(cls):
+        if cls._inst is None:
+            cls._inst = cls()
+        return cls._inst
+
+    def _events(self, on):
+        if on:
+            self.codes = library_codes()
+        for c in self.codes:
+            try:
+                mon.set_local_events(FP_TOOL, c, mon.events.LINE if on else 0)
+            except Exception:  # noqa: BLE001
+                pass
+
+    def count(self, fn, *a, **k):
+        """-> (result, number of line events of library code during the call)"""
+        self._events(True)
+        self.n, self.at, self.armed, self.where = 0, None, True, None
+        try:
+            return fn(*a, **k), self.n
+        finally:
+            self.armed = False
+            self._events(False)
+
+    def inject(self, at, fn, *a, **k):
+        """-> ("interrupted", where) | ("returned", result).  Other exceptions of the call propagate."""
+        self._events(True)
+        self.n, self.at, self.armed, self.where = 0, at, True, None
+        try:
+            res = fn(*a, **k)
+        except Interrupted:
+            return "interrupted", self.where
+        finally:
+            self.armed = False
+            self._events(False)
+        return "returned", res
